@@ -1,7 +1,10 @@
 import WfProofs.PolicyLemmas
 import WfProofs.RunnerTerminal
 import WfProofs.EngineRerun
+import WfProofs.RunnerRetryDelay
+import WfProofs.PolicyChainIndex
 import WfModel.GenEngineShape
+import WfModel.GenRetryDelayShape
 /-!
 # C06 — retry delays follow the wait strategy in documented order
 
@@ -189,3 +192,211 @@ example : (applyRes C06.cfg (fun _ _ k _ => .retry k) 3 C06.exec.ev false { st :
     [.queueEvent { ev := C06.exec.ev, attempts := some 3, firstAt := some 10, lastExc := some 7, lastFailedAt := some 13 } (some 3) (some 3)] :=
   C06_failure_after_rerun_counts_on C06.cfg _ 3 C06.exec.ev false { st := C06.st, exec := C06.exec } C06.exec.retryRec rfl 7 13
     { name := 3, accepted := [5, 6], numWorkers := 2, hasRetry := true } (by decide) rfl 3 rfl rfl
+
+/-! ## every history: no retry is re-admitted before the delay documented for its failure
+
+The per-step facts above (`C06_delayed_retry_parked`, `C06_not_before_delay`, `C06_only_timer_releases`) are lifted to an
+invariant of the whole runner (`Engine.C06Inv`, `WfProofs/RunnerRetryDelay.lean`) and proved for EVERY action list from the
+start of a run, fresh or resumed.  A retry travels as a `TickAddEvent` carrying the record of the failure it follows; the
+statement reads that record: if it says "failure number `k`, at time `f`, of an invocation first started at `fa`, exception
+`x`", and the step's policy grants delay `d` for exactly that failure, then the tick is reduced (the retry is admitted to a
+worker slot or to the step's queue) at a time `t ≥ f + d`.
+
+Environment assumptions, stated as `Engine.c06ActsOk` along the run: a finishing worker reports no failure time later than
+the clock (`failed_at = get_now()` is read when the step raises, before its result is reduced), and ticks arriving from
+outside carry no failure record (`ctx.send_event` builds a bare `TickAddEvent`).  A resumed state must hold only served
+records in its waiters (`Engine.c06InitOk`; a fresh state has none). -/
+
+/-- **whole-run form of "not before the delay"**: in the tick log of every reachable runner, every re-admitted retry
+was reduced no earlier than the failure it follows plus the delay the policy grants for that failure -/
+theorem C06_retry_never_before_its_delay (cfg : Cfg) (pol : Engine.Policy) (st0 : State) (now0 : Int) (start : Option Ev)
+    (timeout : Option Nat) (h0 : c06InitOk pol cfg st0 now0) (acts : List Act)
+    (hacts : c06ActsOk cfg pol (Runner.init cfg st0 now0 start timeout) acts)
+    (att : Attempt) (step : Nat) (t : Int)
+    (hlog : (Tick.addEvent att (some step), t) ∈ (Runner.run cfg pol (Runner.init cfg st0 now0 start timeout) acts).log)
+    (k : Nat) (f fa : Int) (x d : Nat) (hk : att.attempts = some k) (hf : att.lastFailedAt = some f)
+    (hfa : att.firstAt = some fa) (hx : att.lastExc = some x) (hp : pol step (f - fa) k x = .retry d) :
+    f + (d : Int) ≤ t :=
+  (c06_run_inv cfg pol acts _ hacts (c06_init_inv cfg pol st0 now0 start timeout h0)).log _ hlog k f fa x d hk hf hfa hx hp
+
+/-- ... and what is still waiting: every parked retry is due no earlier than that time, every buffered one has
+reached it, for every reachable runner -/
+theorem C06_pending_retries_wait_out_their_delay (cfg : Cfg) (pol : Engine.Policy) (st0 : State) (now0 : Int)
+    (start : Option Ev) (timeout : Option Nat) (h0 : c06InitOk pol cfg st0 now0) (acts : List Act)
+    (hacts : c06ActsOk cfg pol (Runner.init cfg st0 now0 start timeout) acts) :
+    let r := Runner.run cfg pol (Runner.init cfg st0 now0 start timeout) acts
+    (∀ tm ∈ r.heap, tm.tick.c06ServedAt pol tm.at_) ∧ (∀ tk ∈ r.buf, tk.c06ServedAt pol r.now) := by
+  intro r
+  have h := c06_run_inv cfg pol acts _ hacts (c06_init_inv cfg pol st0 now0 start timeout h0)
+  exact ⟨fun tm htm => (h.heap tm htm).1, fun tk htk => (h.buf tk htk).1⟩
+
+/-- a fresh run needs no assumption on its start state -/
+theorem C06_fresh_run_retry_never_before_its_delay (cfg : Cfg) (pol : Engine.Policy) (now0 : Int) (start : Option Ev)
+    (timeout : Option Nat) (acts : List Act)
+    (hacts : c06ActsOk cfg pol (Runner.init cfg initState now0 start timeout) acts)
+    (att : Attempt) (step : Nat) (t : Int)
+    (hlog : (Tick.addEvent att (some step), t) ∈ (Runner.run cfg pol (Runner.init cfg initState now0 start timeout) acts).log)
+    (k : Nat) (f fa : Int) (x d : Nat) (hk : att.attempts = some k) (hf : att.lastFailedAt = some f)
+    (hfa : att.firstAt = some fa) (hx : att.lastExc = some x) (hp : pol step (f - fa) k x = .retry d) :
+    f + (d : Int) ≤ t :=
+  C06_retry_never_before_its_delay cfg pol initState now0 start timeout (c06InitOk_fresh pol cfg now0) acts hacts
+    att step t hlog k f fa x d hk hf hfa hx hp
+
+/-- the invariant is not an artefact of the start: it is preserved by every single action from ANY runner state -/
+theorem C06_every_action_keeps_delays (cfg : Cfg) (pol : Engine.Policy) (r : Runner) (a : Act) (ha : a.c06Ok r)
+    (h : C06Inv pol r) : C06Inv pol (r.step cfg pol a) := c06_step_inv cfg pol r a ha h
+
+/-! Non-vacuity: step 3 (one worker, retry policy `delay = 2·k`) receives start event uid 1 at t = 10, fails at t = 11
+(failure 1 → delay 2, parked for t = 14 because the result is reduced at t = 12; the second `drain` reduces the idle check
+the quiet step scheduled), the timer fires at t = 14 and the retry is admitted; it fails again at t = 15 (failure 2 →
+delay 4), is reduced at t = 15, parked for 19, admitted at 19. -/
+def C06.cfg1 : Cfg := { steps := [{ name := 3, accepted := [5], numWorkers := 1, hasRetry := true }] }
+def C06.pol2k : Engine.Policy := fun _ _ k _ => .retry (2 * k)
+def C06.ev1 : Ev := { ty := 5, kind := .start, uid := 1 }
+def C06.acts : List Act :=
+  [.drain, .advance 1, .workerDone 3 0 [.failed 7 11], .advance 1, .drain, .drain, .timer, .advance 2, .timer, .drain,
+   .advance 1, .workerDone 3 0 [.failed 8 15], .drain, .drain, .advance 3, .timer, .advance 1, .timer, .drain]
+def C06.run1 : Runner := Runner.run C06.cfg1 C06.pol2k (Runner.init C06.cfg1 initState 10 (some C06.ev1) none) C06.acts
+
+example : C06.run1.log.map (fun p => (match p.1 with | .addEvent a _ => a.attempts | _ => none, p.2)) =
+    [(none, 10), (none, 12), (none, 12), (some 1, 14), (none, 15), (none, 15), (some 2, 19)] := by decide
+example : (Tick.addEvent { ev := C06.ev1, attempts := some 2, firstAt := some 10, lastExc := some 8, lastFailedAt := some 15 } (some 3), 19)
+    ∈ C06.run1.log := by decide
+theorem C06.acts_ok : c06ActsOk C06.cfg1 C06.pol2k (Runner.init C06.cfg1 initState 10 (some C06.ev1) none) C06.acts := by
+  refine ⟨trivial, trivial, ?_, trivial, trivial, trivial, trivial, trivial, trivial, trivial, trivial, ?_, trivial, trivial,
+    trivial, trivial, trivial, trivial, trivial, trivial⟩
+  · intro x f hm
+    simp only [List.mem_singleton, Res.failed.injEq] at hm
+    obtain ⟨_, rfl⟩ := hm
+    decide
+  · intro x f hm
+    simp only [List.mem_singleton, Res.failed.injEq] at hm
+    obtain ⟨_, rfl⟩ := hm
+    decide
+example : (15 : Int) + ((4 : Nat) : Int) ≤ 19 :=
+  C06_fresh_run_retry_never_before_its_delay C06.cfg1 C06.pol2k 10 (some C06.ev1) none C06.acts C06.acts_ok
+    { ev := C06.ev1, attempts := some 2, firstAt := some 10, lastExc := some 8, lastFailedAt := some 15 } 3 19 (by decide)
+    2 15 10 8 4 rfl rfl rfl rfl rfl
+/-- a parked retry, mid-run: after the first failure is reduced at t = 12 the heap holds the retry, due at 14 = 12 + 2 ≥ 11 + 2 -/
+example : ((Runner.run C06.cfg1 C06.pol2k (Runner.init C06.cfg1 initState 10 (some C06.ev1) none) (C06.acts.take 6)).heap.map
+    (fun tm => tm.at_)) = [14] := by decide
+/-- the assumption on the environment is needed: a worker reporting a failure time from the future (t = 20 at clock 11)
+gets its retry admitted at 13 < 20 + 2 -/
+example : (Runner.run C06.cfg1 C06.pol2k (Runner.init C06.cfg1 initState 10 (some C06.ev1) none)
+      [.drain, .advance 1, .workerDone 3 0 [.failed 7 20], .drain, .drain, .advance 2, .timer, .drain]).log.map (·.2) = [10, 11, 11, 13] := by decide
+
+/-- (repair b50f853) a failure reported in the same result list AFTER a stale `AddCollectedEvent` already scheduled the
+execution to run again is skipped whole: no policy call, no retry queued, the record and the state untouched — the
+invocation is re-run once, not re-run AND retried -/
+theorem C06_failure_of_rescheduled_execution_skipped (cfg : Cfg) (pol : Engine.Policy) (step : Nat) (tickEv : Ev) (dc : Bool)
+    (acc : ResAcc) (exc : Nat) (failedAt : Int) (h : acc.stillInProgress = true) :
+    (applyRes cfg pol step tickEv dc acc (.failed exc failedAt)).cmds = acc.cmds ∧
+      (applyRes cfg pol step tickEv dc acc (.failed exc failedAt)).exec.retryRec = acc.exec.retryRec ∧
+      (applyRes cfg pol step tickEv dc acc (.failed exc failedAt)).stillInProgress = true := by
+  simp [applyRes, h]
+example : (processStepResult C06.cfg (fun _ _ k _ => .retry k) 3 0 C06.exec.ev
+      [.addCollected 0 { ty := 5, kind := .plain, uid := 1 }, .failed 7 13] C06.st 13).2 =
+    [.runWorker 3 { ty := 5, kind := .plain, uid := 1 } 0] := by decide
+
+/-! ## which link / which exponent answers for the k-th retry, for all chains, parameters and retry numbers
+
+`C06_delay_index_actual` says the engine evaluates the wait strategy at the failure number `k`.  What that means for the
+strategies the property names: -/
+
+/-- **`wait_chain`, every chain and every retry**: retry `k` inside the chain is answered by link number `k` counted
+from 0 (the `(k+1)`-th strategy, not the `k`-th), retries at or past the end by the last link — each evaluated at `k` -/
+theorem C06_chain_link_of_retry (ws : List Wait) (hne : ws ≠ []) (n k : Nat) (el : Rat) (e : Nat) (u : Rat) (hk : k < n) :
+    (∀ h : k < ws.length,
+      C06.engineDelay { retry := none, wait := waitChain ws, stop := stopAfterAttempt (n : Rat) } k el e u = some ((ws[k]) k u)) ∧
+    (ws.length - 1 ≤ k →
+      C06.engineDelay { retry := none, wait := waitChain ws, stop := stopAfterAttempt (n : Rat) } k el e u =
+        some ((ws.getLast hne) k u)) := by
+  rw [C06_delay_index_actual (waitChain ws) n k el e u hk]
+  exact ⟨fun h => by rw [c06_waitChain_lt ws k u h], fun h => by rw [c06_waitChain_ge ws k u hne h]⟩
+
+/-- **the first strategy of a chain is dead code for the engine** (the general form of `C06_refuted_witness`): with at
+least two links, no retry `k ≥ 1` of any composed policy — any retry condition, any stop condition — depends on it -/
+theorem C06_chain_head_never_used (w0 w0' : Wait) (ws : List Wait) (hne : ws ≠ []) (c : Option Cond) (s : Stop)
+    (k : Nat) (hk : 1 ≤ k) (el : Rat) (e : Nat) (u : Rat) :
+    C06.engineDelay { retry := c, wait := waitChain (w0 :: ws), stop := s } k el e u =
+      C06.engineDelay { retry := c, wait := waitChain (w0' :: ws), stop := s } k el e u := by
+  obtain ⟨j, rfl⟩ : ∃ j, k = j + 1 := ⟨k - 1, by omega⟩
+  simp only [C06.engineDelay, Composed.next, c06_waitChain_cons_succ _ ws j u hne]
+
+/-- hence the documented-order clause fails for EVERY chain of fixed waits whose first two links differ, at the
+first retry — not only for the witness -/
+theorem C06_refuted_for_every_such_chain (a b : Rat) (rest : List Wait) (n : Nat) (hn : 1 < n) (hab : a ≠ b) (el : Rat) (e : Nat) (u : Rat) :
+    C06.engineDelay { retry := none, wait := waitChain (waitFixed a :: waitFixed b :: rest), stop := stopAfterAttempt (n : Rat) } 1 el e u
+      ≠ some (waitChain (waitFixed a :: waitFixed b :: rest) (1 - 1) u) := by
+  rw [C06_delay_index_actual _ n 1 el e u hn]
+  have h1 : waitChain (waitFixed a :: waitFixed b :: rest) 1 u = b := by
+    rw [c06_waitChain_lt _ 1 u (by simp)]; rfl
+  have h0 : waitChain (waitFixed a :: waitFixed b :: rest) (1 - 1) u = a := by
+    rw [c06_waitChain_lt _ (1 - 1) u (by simp)]; rfl
+  rw [h1, h0]
+  exact fun h => hab (Option.some.inj h).symm
+
+/-- **the exponential and incrementing strategies, every parameter and every retry**: the `k`-th retry waits the
+formula at exponent / multiple `k` — so the first retry waits `multiplier·exp_base`, `initial·exp_base (+ jitter)`,
+`start + increment` (each clamped), not the documented initial values.  The right-hand sides are spelled out; the
+left-hand sides are the bodies regenerated from the source (`Gen.RP`). -/
+theorem C06_exponential_delay_of_retry (n k : Nat) (hk : k < n) (el : Rat) (e : Nat) (u : Rat) (m b mx mn s i j : Rat) :
+    C06.engineDelay { retry := none, wait := waitExponential m b mx mn, stop := stopAfterAttempt (n : Rat) } k el e u =
+        some (max (max 0 mn) (min (m * b ^ k) mx)) ∧
+    C06.engineDelay { retry := none, wait := waitIncrementing s i mx, stop := stopAfterAttempt (n : Rat) } k el e u =
+        some (max 0 (min (s + i * (k : Rat)) mx)) ∧
+    C06.engineDelay { retry := none, wait := waitExponentialJitter m b mx j, stop := stopAfterAttempt (n : Rat) } k el e u =
+        some (min (min (m * b ^ k) mx + (0 + u * (j - 0))) mx) ∧
+    C06.engineDelay { retry := none, wait := waitRandomExponential m b mx mn, stop := stopAfterAttempt (n : Rat) } k el e u =
+        some (mn + u * (max (max 0 mn) (min (m * b ^ k) mx) - mn)) :=
+  ⟨C06_delay_index_actual _ n k el e u hk, C06_delay_index_actual _ n k el e u hk,
+   C06_delay_index_actual _ n k el e u hk, C06_delay_index_actual _ n k el e u hk⟩
+
+/-- in particular the first retry of `wait_exponential(multiplier=m, exp_base=b)` waits `m·b` (clamped), of
+`wait_incrementing(start=s, increment=i)` waits `s + i` (clamped) -/
+theorem C06_first_retry_delays (n : Nat) (hn : 1 < n) (el : Rat) (e : Nat) (u : Rat) (m b mx mn s i : Rat) :
+    C06.engineDelay { retry := none, wait := waitExponential m b mx mn, stop := stopAfterAttempt (n : Rat) } 1 el e u =
+        some (max (max 0 mn) (min (m * b) mx)) ∧
+    C06.engineDelay { retry := none, wait := waitIncrementing s i mx, stop := stopAfterAttempt (n : Rat) } 1 el e u =
+        some (max 0 (min (s + i) mx)) := by
+  have h := C06_exponential_delay_of_retry n 1 hn el e u m b mx mn s i 0
+  have hb : b ^ 1 = b := by rw [Rat.pow_succ, Rat.pow_zero, Rat.one_mul]
+  have hi : i * ((1 : Nat) : Rat) = i := by
+    have : ((1 : Nat) : Rat) = 1 := rfl
+    rw [this, Rat.mul_one]
+  rw [hb, hi] at h
+  exact ⟨h.1, h.2.1⟩
+
+example : C06.engineDelay { retry := none, wait := waitExponential 1 2 60 0, stop := stopAfterAttempt ((5 : Nat) : Rat) } 1 0 0 0 = some 2 := by
+  rw [(C06_first_retry_delays 5 (by omega) 0 0 0 1 2 60 0 0 0).1]; decide +kernel
+example : waitChain [waitFixed 3, waitFixed 1, waitFixed 2] 1 0 = waitChain [waitFixed 99, waitFixed 1, waitFixed 2] 1 0 := by
+  have := C06_chain_head_never_used (waitFixed 3) (waitFixed 99) [waitFixed 1, waitFixed 2] (by simp) none stopNever 1 (by omega) 0 0 0
+  simpa [C06.engineDelay, Composed.next, stopNever] using this
+example : C06.engineDelay { retry := none, wait := waitChain [waitFixed 3, waitFixed 1], stop := stopAfterAttempt ((5 : Nat) : Rat) } 1 0 0 0
+    ≠ some (waitChain [waitFixed 3, waitFixed 1] (1 - 1) 0) :=
+  C06_refuted_for_every_such_chain 3 1 [] 5 (by omega) (by decide) 0 0 0
+
+/-! ## the source of the delay path agrees in shape (re-read on every run, `harness/gen/retry_delay_shape.py`) -/
+
+/-- the expressions the whole-run theorem rests on, as they stand in the current source: the retry command carries the
+failure record (`attempts + 1`, first attempt, exception, `failed_at`) and the policy's delay; `process_command` copies the
+record into the `TickAddEvent`, parks it for `get_now() + delay` exactly when `delay > 0` and buffers it otherwise;
+`pop_due_ticks` releases a parked tick only when its time is `<= now`; every `StepWorkerFailed` takes its `failed_at`
+from a clock reading (the epoch clock the adapter contract prescribes for `get_now()`), never from a computed value -/
+theorem C06_delay_source_shape :
+    GenRetryDelayShape.retryDelayGuard = "delay is not None" ∧
+    GenRetryDelayShape.retryCommandRecord =
+      "event=tick.event, delay=delay, step_name=tick.step_name, attempts=this_execution.attempts + 1, first_attempt_at=this_execution.first_attempt_at, last_exception=result.exception, last_failed_at=result.failed_at, recovery_counts=dict(this_execution.recovery_counts)" ∧
+    GenRetryDelayShape.retryElapsed = "result.failed_at - this_execution.first_attempt_at" ∧
+    GenRetryDelayShape.queueTickRecord =
+      "event=command.event, step_name=command.step_name, attempts=command.attempts, first_attempt_at=command.first_attempt_at, last_exception=command.last_exception, last_failed_at=command.last_failed_at, recovery_counts=dict(command.recovery_counts)" ∧
+    GenRetryDelayShape.queueDelayTest = "command.delay is not None and command.delay > 0" ∧
+    GenRetryDelayShape.queueDelayedBody = "now = await self.adapter.get_now() ; self.schedule_tick(event, at_time=now + command.delay)" ∧
+    GenRetryDelayShape.queueUndelayedBody = "self.tick_buffer.append(event)" ∧
+    GenRetryDelayShape.scheduleTickPush = "heapq.heappush(self.scheduled_wakeups, (at_time, seq, tick))" ∧
+    GenRetryDelayShape.popDueTest = "self.scheduled_wakeups and self.scheduled_wakeups[0][0] <= now" ∧
+    GenRetryDelayShape.failedAtSources = ["await self.adapter.get_now()@control_loop.py", "time.time()@types/step_function.py"] ∧
+    GenEngineShape.wakeupMutators = ["heapq.heappop@pop_due_ticks", "heapq.heappush@schedule_tick"] ∧
+    Gen.RP.loopFailures = "this_execution.attempts + 1" ∧ Gen.RP.loopNextArgs = "elapsed_time, failures, result.exception" :=
+  ⟨rfl, rfl, rfl, rfl, rfl, rfl, rfl, rfl, rfl, rfl, rfl, rfl, rfl⟩
+example : GenRetryDelayShape.failedAtSources.length = 2 := by decide
